@@ -428,4 +428,254 @@ theorem transitionTo_st (c : Cfg) (s : SObj) : (transitionTo c s).st = s ∨ ∃
       · exact Or.inl (enterNext_st _ _)
   · exact Or.inr ⟨_, forceExcepted_st _ _⟩
 
+/-! ### transitions preserve the coroutine invariant -/
+
+/-- the target of a transition is well-formed: not CREATED, and the future of a WAITING target exists -/
+def TargetOk (c : Cfg) (s : SObj) : Prop :=
+  s.label ≠ .created ∧ ∀ fn wf wk aw, s = .waiting fn wf wk aw → wf < c.wfs.length
+
+theorem TargetOk.ar {c c' : Cfg} {s : SObj} (h : TargetOk c s) (r : AR c c') : TargetOk c' s := by
+  unfold TargetOk; rw [r.wfs]; exact h
+theorem targetOk_excepted (c : Cfg) (e : Exc) : TargetOk c (.excepted e) :=
+  ⟨by simp [SObj.label], by intro _ _ _ _ h; cases h⟩
+theorem targetOk_killed (c : Cfg) : TargetOk c .killed :=
+  ⟨by simp [SObj.label], by intro _ _ _ _ h; cases h⟩
+theorem targetOk_running (c : Cfg) (fn a k) : TargetOk c (.running fn a k) :=
+  ⟨by simp [SObj.label], by intro _ _ _ _ h; cases h⟩
+
+theorem allowed_of_waiting {s : SObj} (hs : s.label ≠ .created) : s.label ∈ allowed .waiting := by
+  cases s <;> simp_all [SObj.label, allowed]
+
+/-- repair J as an invariant step: a stepper awaiting `wf` stays wake-able across any transition -/
+theorem transitionTo_wok (c : Cfg) (s : SObj) (wf : Nat) (hs : s.label ≠ .created) (h : WOk c wf) :
+    WOk (transitionTo c s) wf := by
+  have r := transitionTo_tr c s
+  refine ⟨Nat.lt_of_lt_of_le h.1 r.wfs.1, Or.inr ?_⟩
+  rcases h.2 with ⟨fn, wk, aw, hst⟩ | hn
+  · have hin : s.label ∈ allowed c.st.label := by rw [hst]; exact allowed_of_waiting hs
+    have r2 := transitionTo_tr_exit c s hin
+    obtain ⟨w, hw, hne⟩ := exitState_completes_wait c fn wf wk aw hst (by rw [List.getElem?_eq_getElem h.1]; rfl)
+    rw [r2.wfs.2 wf w hw hne]; intro h'; exact hne (Option.some.inj h')
+  · exact r.wfs.nonpending h.1 hn
+
+/-- repair G as an invariant step: after `on_terminated` the current pause future is released -/
+theorem onTerminated_rel (d : Cfg) (hpv : PV d) :
+    ∀ pf, (onTerminated d).paused = some pf → (onTerminated d).pfs[pf]? = some true := by
+  intro pf hp
+  have hp' : d.paused = some pf := by rw [← (onTerminated_tr d).paused]; exact hp
+  exact onTerminated_releases_pause d pf hp (by rw [List.getElem?_eq_getElem (hpv pf hp')]; rfl)
+
+theorem forceExcepted_relT (d : Cfg) (e : Exc) (hc : d.closed = false) (hpv : PV d) : RelT (forceExcepted d e) := by
+  intro _
+  unfold forceExcepted
+  simp only [hc, Bool.false_eq_true, if_false]
+  apply onTerminated_rel
+  exact hpv.tr (TR.trans (TR.trans (setFutExc_tr d e) (setState_tr _ _)) (enteredHooks_tr _ _))
+
+theorem enterNext_relT (d : Cfg) (s : SObj) (hpv : PV d) : RelT (enterNext d s) := by
+  intro ht
+  rw [enterNext_st] at ht
+  unfold enterNext
+  dsimp only
+  rw [if_pos ht]
+  apply onTerminated_rel
+  exact hpv.tr (TR.trans (TR.trans (enterState_tr d s) (setState_tr _ s)) (enteredHooks_tr _ s))
+
+theorem transitionTo_relT (c : Cfg) (s : SObj) (hc : c.closed = false) (hpv : PV c) : RelT (transitionTo c s) := by
+  unfold transitionTo
+  split
+  · simp only [hc, Bool.false_eq_true, if_false]
+    have hc1 : (exitState c).closed = false := by rw [(exitState_same c).2.2]; exact hc
+    have hp1 : PV (exitState c) := hpv.tr (exitState_tr c)
+    split
+    · exact forceExcepted_relT _ _ hc1 hp1
+    · rename_i c2 hok
+      exact enterNext_relT c2 s (hp1.tr (enteringHooks_tr _ c2 s hok))
+  · exact forceExcepted_relT _ _ hc hpv
+
+theorem transitionTo_wv (c : Cfg) (s : SObj) (hs : TargetOk c s) : WV (transitionTo c s) := by
+  intro fn wf wk aw hst
+  have r := transitionTo_tr c s
+  rcases transitionTo_st c s with h | ⟨e, h⟩
+  · rw [h] at hst; exact Nat.lt_of_lt_of_le (hs.2 fn wf wk aw hst) r.wfs.1
+  · rw [h] at hst; cases hst
+
+theorem transitionTo_invS (c : Cfg) (s : SObj) (h : InvS c) (hc : c.closed = false) (hs : TargetOk c s) :
+    InvS (transitionTo c s) := by
+  have r := transitionTo_tr c s
+  refine ⟨?_, ?_, ?_, h.pv.tr r, transitionTo_wv c s hs, fun _ _ => transitionTo_relT c s hc h.pv⟩
+  · intro e; rw [r.pc]; exact h.nocrash e
+  · intro wf hp; rw [r.pc] at hp; exact transitionTo_wok c s wf hs.1 (h.aw wf hp)
+  · intro pf hp; rw [r.pc] at hp
+    obtain ⟨h1, h2⟩ := h.ap pf hp
+    refine ⟨Nat.lt_of_lt_of_le h1 r.pfs.1, ?_⟩
+    rcases h2 with h2 | h2
+    · exact Or.inl (by rw [r.paused]; exact h2)
+    · exact Or.inr (r.pfs.2 pf h2)
+
+/-- the rest of `Inv10` only looks at fields a `TR`-step leaves alone -/
+theorem Inv10.of_tr {c c' : Cfg} (h : Inv10 c) (r : TR c c') (hs : InvS c') : Inv10 c' := by
+  refine ⟨hs, h.ia.of_eq r.interrupt r.actions, ?_, ?_⟩
+  · intro hq; rw [r.interrupt]; apply h.qi; unfold Quiet at *; rw [r.pc] at hq; exact hq
+  · intro hq; rw [r.stepping]; apply h.qs; unfold Quiet at *; rw [r.pc] at hq; exact hq
+
+theorem transitionTo_inv10 (c : Cfg) (s : SObj) (h : Inv10 c) (hc : c.closed = false) (hs : TargetOk c s) :
+    Inv10 (transitionTo c s) :=
+  h.of_tr (transitionTo_tr c s) (transitionTo_invS c s h.s hc hs)
+
+/-! ### the end of a step -/
+
+theorem doPauseHooks_invS (c : Cfg) (h : InvS c) (hq : Hq c)
+    (hl : ∀ pf, c.pc = .awaitPaused pf → terminal c.st.label = false) : InvS (doPauseHooks c) := by
+  refine ⟨h.nocrash, h.aw, ?_, ?_, h.wv, ?_⟩
+  · intro pf hp
+    have h1 : c.pfs[pf]? = some true := hq pf hp
+    have hlt : pf < c.pfs.length := (List.getElem?_eq_some_iff.mp h1).1
+    refine ⟨?_, Or.inr ?_⟩
+    · show pf < (c.pfs ++ [false]).length
+      simp; omega
+    · exact (MonoP.append c.pfs false).2 pf h1
+  · intro pf hp
+    have h1 : some c.pfs.length = some pf := hp
+    cases h1
+    show c.pfs.length < (c.pfs ++ [false]).length
+    simp
+  · intro pf hp ht
+    have hl' := hl pf hp
+    have ht' : terminal c.st.label = true := ht
+    rw [hl'] at ht'; cases ht'
+
+theorem doPauseHooks_hq (c : Cfg) (hq : Hq c) : Hq (doPauseHooks c) := by
+  intro pf hp
+  exact (MonoP.append c.pfs false).2 pf (hq pf hp)
+
+theorem runAction_invS (c : Cfg) (i : Nat) (next : Option SObj) (h : InvS c) (hq : Hq c) (hc : c.closed = false)
+    (hl : terminal c.st.label = false)
+    (hp : ∀ a, c.actions[i]? = some a → a.status = .pending)
+    (hn : (∃ pf, c.pc = .awaitPaused pf) → next = none)
+    (ht : ∀ s, next = some s → TargetOk c s) :
+    InvS (runAction c i next) ∧ Hq (runAction c i next) := by
+  unfold runAction
+  split
+  · exact ⟨h, hq⟩
+  · rename_i a ha
+    split
+    · rename_i hne; exact absurd (hp a ha) hne
+    · split
+      · cases next with
+        | none =>
+          exact ⟨(doPauseHooks_invS c h hq (fun _ _ => hl)).ar (setActionStatus_ar ..),
+            (doPauseHooks_hq c hq).ar (setActionStatus_ar ..)⟩
+        | some s =>
+          have r := transitionTo_tr c s
+          have h1 := transitionTo_invS c s h hc (ht s rfl)
+          have hq1 : Hq (transitionTo c s) := hq.tr r
+          have hl1 : ∀ pf, (transitionTo c s).pc = .awaitPaused pf → terminal (transitionTo c s).st.label = false := by
+            intro pf hpf; rw [r.pc] at hpf; have := hn ⟨pf, hpf⟩; cases this
+          exact ⟨(doPauseHooks_invS _ h1 hq1 hl1).ar (setActionStatus_ar ..),
+            (doPauseHooks_hq _ hq1).ar (setActionStatus_ar ..)⟩
+      · have r := transitionTo_tr c .killed
+        have h1 := transitionTo_invS c .killed h hc (targetOk_killed c)
+        have a1 : AR (transitionTo c .killed) { transitionTo c .killed with killing := none } :=
+          ⟨rfl, rfl, rfl, rfl, rfl, rfl, rfl⟩
+        exact ⟨(h1.ar a1).ar (setActionStatus_ar ..), ((hq.tr r).ar a1).ar (setActionStatus_ar ..)⟩
+
+theorem prepare_ar (c : Cfg) (r : StepEnd) : AR c (prepare c r).1 := by
+  unfold prepare
+  split
+  · exact setInterrupt_ar ..
+  · exact AR.rfl' c
+  · split
+    · exact AR.rfl' c
+    · exact setInterruptFromExc_ar ..
+  · exact setInterrupt_ar ..
+
+theorem prepare_ia (c : Cfg) (r : StepEnd) (h : IA c) : IA (prepare c r).1 := by
+  unfold prepare
+  split
+  · exact IA.of_none (setInterrupt_interrupt ..)
+  · exact h
+  · split
+    · exact h
+    · exact setInterruptFromExc_ia _ _ _
+  · exact IA.of_none (setInterrupt_interrupt ..)
+
+/-- an interrupt action found by a wake-up from the pause (none was installed) is run without a next state -/
+theorem prepare_hn (c : Cfg) (r : StepEnd) (hqi : c.interrupt = none) :
+    (prepare c r).1.interrupt = none ∨ (prepare c r).2 = none := by
+  unfold prepare
+  split
+  · exact Or.inl (setInterrupt_interrupt ..)
+  · exact Or.inl hqi
+  · split <;> exact Or.inr rfl
+  · exact Or.inl (setInterrupt_interrupt ..)
+
+theorem prepare_target (c : Cfg) (r : StepEnd) (hr : ∀ s, r = .next (some s) → TargetOk c s) :
+    ∀ s, (prepare c r).2 = some s → TargetOk (prepare c r).1 s := by
+  have a := prepare_ar c r
+  intro s hs
+  apply TargetOk.ar _ a
+  unfold prepare at hs
+  split at hs
+  · cases hs; exact targetOk_excepted c _
+  · rename_i s' _; dsimp only at hs; exact hr s (by rw [hs])
+  · split at hs <;> cases hs
+  · cases hs; exact targetOk_excepted c _
+
+theorem dispatch_invS (c : Cfg) (next : Option SObj) (h : InvS c) (hq : Hq c) (h2 : Inv2 c) (hia : IA c)
+    (hn : (∃ pf, c.pc = .awaitPaused pf) → c.interrupt = none ∨ next = none)
+    (ht : ∀ s, next = some s → TargetOk c s) : InvS (dispatch c next) ∧ Hq (dispatch c next) := by
+  unfold dispatch
+  split
+  · exact ⟨h, hq⟩
+  · rename_i hl
+    have hl' : terminal c.st.label = false := by simpa using hl
+    have hc : c.closed = false := (h2.live hl').2.1
+    split
+    · rename_i i hi
+      split
+      · rename_i hnc
+        apply runAction_invS c i next h hq hc hl'
+        · intro a ha
+          rcases hia i a hi ha with hp | hp
+          · exact hp
+          · exfalso; apply hnc; simp [actionStatus, ha, hp]
+        · intro hx; rcases hn hx with h0 | h0
+          · rw [hi] at h0; cases h0
+          · exact h0
+        · exact ht
+      · cases next with
+        | none => exact ⟨h, hq⟩
+        | some s => exact ⟨transitionTo_invS c s h hc (ht s rfl), hq.tr (transitionTo_tr c s)⟩
+    · cases next with
+      | none => exact ⟨h, hq⟩
+      | some s => exact ⟨transitionTo_invS c s h hc (ht s rfl), hq.tr (transitionTo_tr c s)⟩
+
+theorem finally_invS (c : Cfg) (h : InvS c) : InvS (finally_ c) := by
+  have h0 : InvS { c with stepping := false } := ⟨h.nocrash, h.aw, h.ap, h.pv, h.wv, h.tp⟩
+  exact h0.ar (setInterrupt_ar _ none)
+theorem finally_hq (c : Cfg) (h : Hq c) : Hq (finally_ c) := by
+  have h0 : Hq { c with stepping := false } := h
+  exact h0.ar (setInterrupt_ar _ none)
+theorem finally_interrupt (c : Cfg) : (finally_ c).interrupt = none := setInterrupt_interrupt _ _
+theorem finally_stepping (c : Cfg) : (finally_ c).stepping = false := (setInterrupt_ar _ none).stepping
+
+/-- what holds at the head of `step_until_terminated`'s loop inside a wake-up of the stepping task: the coroutine
+invariant, the pause future the task was blocked on (if any) is released, no interrupt action, no step in flight -/
+structure Tick (c : Cfg) : Prop where
+  s : InvS c
+  q : Hq c
+  i2 : Inv2 c
+  int : c.interrupt = none
+  stp : c.stepping = false
+
+theorem endOfStep_tick (c : Cfg) (r : StepEnd) (h : InvS c) (hq : Hq c) (h2 : Inv2 c) (hia : IA c)
+    (hqi : (∃ pf, c.pc = .awaitPaused pf) → c.interrupt = none)
+    (hr : ∀ s, r = .next (some s) → TargetOk c s) : Tick (endOfStep c r) := by
+  have a := prepare_ar c r
+  have d := dispatch_invS (prepare c r).1 (prepare c r).2 (h.ar a) (hq.ar a) (h2.same2 (prepare_same2 c r))
+    (prepare_ia c r hia) (by intro ⟨pf, hpf⟩; rw [a.pc] at hpf; exact prepare_hn c r (hqi ⟨pf, hpf⟩))
+    (prepare_target c r hr)
+  exact ⟨finally_invS _ d.1, finally_hq _ d.2, endOfStep_inv2 c r h2, finally_interrupt _, finally_stepping _⟩
+
 end PMF
